@@ -1218,8 +1218,109 @@ impl SchedX {
         }
     }
 
+    /// L1/L2: "once the handle is dropped after a FAILED commit, the directory can be opened again
+    /// and all background writers of the old handle have finished". One fixed order of events (no
+    /// schedule enumeration): a commit that fails with bucket exhaustion while the value store has
+    /// a lot to write, run with every sync-pipeline task held back until somebody waits for it
+    /// (`verif::lazy`: a task nobody joins runs as late as possible); the handle is dropped, a
+    /// second handle is opened, and every mutating or syncing file operation recorded after that
+    /// open returned must come from the opening thread itself.
+    fn run_late_writers(&mut self, name: &str) -> Outcome {
+        use nomt::verif::io as vio;
+        let mut out = Outcome::default();
+        out.nontrivial = true;
+        let dir = self.fresh();
+        let mut cf = cfg();
+        cf.buckets = 4;
+        cf.rollback = name == "L2";
+        let pair = |i: u8, side: u8| {
+            let mut k = [0u8; 32];
+            k[0] = (i << 2) | side;
+            k[31] = 1;
+            k
+        };
+        let n = open_nomt::<B3>(&dir, &cf).expect("open");
+        let mut model = refmodel::Kv::new();
+        let mut base: Vec<(Key, Option<Vec<u8>>)> = vec![];
+        for i in 0..3u8 {
+            for side in 0..2u8 {
+                base.push((pair(i, side), Some(val(i * 2 + side + 1))));
+            }
+        }
+        commit_kv(&n, &base).expect("base commit");
+        for (k, v) in &base {
+            model.insert(*k, v.clone().unwrap());
+        }
+        // needs a fifth page (the table has four buckets) and writes ≈ 60 value pages
+        let big = |t: u8| Some(crate::util::value(7000 + t as u64, 70000));
+        let failing: Vec<(Key, Option<Vec<u8>>)> = vec![(pair(0, 0), big(1)), (pair(1, 0), big(2)), (pair(3, 0), big(3)), (pair(3, 1), Some(val(9)))];
+        vio::enable();
+        nomt::verif::lazy::enable(true);
+        let r = commit_kv(&n, &failing);
+        let failed = match &r {
+            Err(e) => format!("{e:#}").contains("exhaustion"),
+            Ok(()) => false,
+        };
+        drop(n);
+        let me = std::thread::current().name().unwrap_or("?").to_string();
+        let second = crate::driver::open_nomt_retry::<B3>(&dir, &cf, 10);
+        vio::mark("second-handle-open");
+        // longer than the gate timeout of the lazy mode: whatever was never joined runs now
+        std::thread::sleep(Duration::from_millis(2200));
+        let (events, _) = vio::disable();
+        nomt::verif::lazy::enable(false);
+        out.transitions = events.len() as u64;
+        if !failed {
+            out.goals.push("commit-did-not-fail-as-planned");
+            out.violation = Some(Violation::new("machinery", format!("harness {name}: the commit was expected to fail with bucket exhaustion: {r:?}")));
+            return out;
+        }
+        out.goals.push("commit-failed-with-bucket-exhaustion");
+        let n2 = match second {
+            Ok(n2) => n2,
+            Err(e) => {
+                out.violation = Some(Violation::new(format!("reopen-after-failed-commit:{name}"), format!("harness {name}: the directory cannot be opened after the poisoned handle was dropped: {e:#}")));
+                return out;
+            }
+        };
+        let mark = events.iter().find(|e| matches!(&e.kind, vio::Kind::Mark(l) if l == "second-handle-open")).map(|e| e.seq).unwrap_or(u64::MAX);
+        let late: Vec<String> = events
+            .iter()
+            .filter(|e| e.seq > mark && !matches!(e.kind, vio::Kind::Mark(_)) && e.thread != me)
+            .map(|e| format!("{}:{} [{}]", e.file, e.kind.tag(), e.thread))
+            .collect();
+        if events.iter().any(|e| e.seq < mark && !matches!(e.kind, vio::Kind::Mark(_)) && e.thread != me) {
+            out.goals.push("old-handle-wrote-before-the-unlock");
+        }
+        if !late.is_empty() {
+            let first = late[0].clone();
+            out.violation = Some(Violation::new(
+                format!("writer-after-unlock:{}:{name}", first.split(' ').next().unwrap_or("")),
+                format!("harness {name}: after a commit failed (bucket exhaustion) and the handle was dropped, a second handle was opened (so the directory lock had been released) and {} file operation(s) of the OLD handle were issued after that: {}", late.len(), late.iter().take(6).cloned().collect::<Vec<_>>().join(", ")),
+            ));
+            std::mem::forget(n2);
+            return out;
+        }
+        // the second handle sees the state before the failed commit, and keeps working
+        let mut m = crate::refmodel::Model::new(cf.rollback, 4);
+        m.kv = model.clone();
+        m.seqn = n2.sync_seqn();
+        let keys: Vec<Key> = model.keys().cloned().chain([pair(3, 0), pair(3, 1)]).collect();
+        if let Err(x) = crate::driver::audit::<B3>(&n2, &m, &keys, crate::driver::AuditFlags { seqn: false, ..crate::driver::AuditFlags::ALL }) {
+            out.violation = Some(Violation::new(format!("state-after-failed-commit:{name}"), format!("harness {name}: second handle after the failed commit: {x}")));
+            return out;
+        }
+        if let Err(e) = commit_kv(&n2, &[(pair(0, 0), Some(val(77)))]) {
+            out.violation = Some(Violation::new(format!("second-handle-commit:{name}"), format!("harness {name}: commit on the second handle failed: {e:#}")));
+        }
+        out
+    }
+
     fn run_case(&mut self, prop: &str, case: &Value) -> Outcome {
         let name = case["harness"].as_str().unwrap().to_string();
+        if name == "L1" || name == "L2" {
+            return self.run_late_writers(&name);
+        }
         let bound = case["bound"].as_u64().unwrap() as usize;
         let fixed: Option<Vec<usize>> = case.get("schedule").and_then(|s| s.as_array()).map(|a| a.iter().map(|x| x.as_u64().unwrap() as usize).collect());
         let max_exec = case["max_exec"].as_u64().unwrap_or(20000);
@@ -1287,8 +1388,8 @@ impl Engine for SchedX {
                 "schedx: closed harnesses of 2–3 real threads on two colliding keys (same value leaf, same merkle page), values stamped with the writer's version, rollback enabled: H1 reader∥blocking writer; H2 reader∥non-blocking writer (prepared changeset, retried blocking when handed back); H3/H3nb/H3ov two writers with changesets on one base (blocking / non-blocking / overlay) followed by reopen and rollback(1); H4 reader∥rollback; H5 reader∥writer∥writer; H6 one thread with two overlapping sessions∥writer; H7 two threads proving different keys (present and absent) through ONE shared session on a cold store, with scheduling points at every I/O submission and every wait for a completion of the calling threads (the scheduler lets outstanding reads complete before it decides, so the enabled set does not depend on I/O speed). EVERY schedule of the visible points (API lock acquisitions with parking_lot's writer-preferring FIFO fairness modelled in the scheduler, the read-transaction wait, harness points between session operations) with ≤c preemptions is executed on a fresh store, c = 0,1,2 (thorough 3). Oracle per schedule: terminates (no enabled thread = deadlock); all reads and the proof of one session agree with one committed version and with session.prev_root(); exactly one of two competing changesets wins; final state, root and state after reopen are the winner's; rollback(1) restores the base. One case = one harness × one bound; evaluations = cases, transitions = scheduler steps, states = distinct schedules (trace digests).",
             ),
             "C20" => (
-                vec!["O1", "O2", "O2x3", "O3", "O4"],
-                "schedx: O1 two threads open one existing directory concurrently; O2 / O2x3 two / three threads open one non-existent directory (creation race) with different options; O3 a live handle ∥ a second opener that retries after the first is dropped; O4 a holder that drops ∥ two openers (three-party hand-over). Every schedule of the open/create/lock/drop points (emptiness check, lock acquisition, creation of meta / hash table / value files, flock try and unlock, I/O-pool shutdown) with ≤c preemptions, c = 0,1,2 (thorough 3). Oracle: never two handles alive at once; a refused open returns an error and leaves every file byte-identical (holder idle); every successful opener's handle commits and reads back; whenever some opener succeeded, the directory afterwards opens and holds the last committed state (no racing opener may wipe or re-initialise it).",
+                vec!["O1", "O2", "O2x3", "O3", "O4", "L1", "L2"],
+                "schedx: O1 two threads open one existing directory concurrently; O2 / O2x3 two / three threads open one non-existent directory (creation race) with different options; O3 a live handle ∥ a second opener that retries after the first is dropped; O4 a holder that drops ∥ two openers (three-party hand-over). L1 / L2 (rollback off / on; one fixed order of events, bounds do not apply): a commit on a full 4-bucket table that fails with bucket exhaustion while the value store has ≈60 pages to write, executed with every sync-pipeline task held back until somebody waits for it (a task nobody joins runs as late as possible); the handle is dropped, a second handle is opened, and every mutating or syncing file operation recorded after that open returned must come from the opening thread — 'all background writers of the old handle have finished'; the second handle shows the state before the failed commit and commits. Every schedule of the open/create/lock/drop points (emptiness check, lock acquisition, creation of meta / hash table / value files, flock try and unlock, I/O-pool shutdown) with ≤c preemptions, c = 0,1,2 (thorough 3). Oracle: never two handles alive at once; a refused open returns an error and leaves every file byte-identical (holder idle); every successful opener's handle commits and reads back; whenever some opener succeeded, the directory afterwards opens and holds the last committed state (no racing opener may wipe or re-initialise it).",
             ),
             _ => panic!("schedx has no plan for {prop}"),
         };
@@ -1298,6 +1399,10 @@ impl Engine for SchedX {
             for h in &harnesses {
                 // three contenders: one preemption less (the schedule count grows fastest there)
                 if (*h == "O2x3" || *h == "H5") && b + 1 > if thorough { 3 } else { 2 } {
+                    continue;
+                }
+                // fixed-order harnesses: once
+                if h.starts_with('L') && b > 0 {
                     continue;
                 }
                 cases.push(json!({"harness": h, "bound": b, "max_exec": if thorough { 200000 } else { 4000 }, "budget_s": if thorough { 1500 } else { 40 }}));
